@@ -2,7 +2,7 @@
 From Coq Require Import List NArith ZArith Bool Lia.
 From Common Require Import Bytes Outcome.
 From Gen Require Import C08.
-From C08 Require Import Model ModelCD ModelLL ModelSub ModelSub2 ModelFL Proofs Proofs_cd Proofs_ll Proofs_ll3 Proofs_ll4 Proofs_sub Proofs_sub2 Proofs_sub3 Proofs_fl.
+From C08 Require Import Model ModelCD ModelLL ModelSub ModelSub2 ModelFL ModelGDEF Proofs Proofs_cd Proofs_ll Proofs_ll3 Proofs_ll4 Proofs_sub Proofs_sub2 Proofs_sub3 Proofs_fl Proofs_gdef.
 Import ListNotations.
 Local Open Scope N_scope.
 
@@ -345,3 +345,22 @@ Theorem featurelist_read_total :
   forall (data : list N) (pos : N), M_fl_read data pos <> Panic.
 Proof. exact fl_read_total. Qed.
 Print Assumptions featurelist_read_total.
+
+(* ---------------- GDEF (opentype/gdef) ---------------- *)
+(* Glyph class definition, mark attachment classes, mark glyph sets (the
+   attachment list, ligature carets and the item variation store are not
+   implemented by the library: offset 0).  Encode panics when an offset or the
+   number of mark glyph sets does not fit 16 bits
+   (fixes/C08-gdef-offset-guards.diff) or when a class table is unrepresentable;
+   whatever it writes (tables below 4 GiB: the mark glyph set offsets are
+   32-bit) reads back, class 0 entries dropped. *)
+Theorem gdef_roundtrip :
+  forall (t : gdef) (b post : list N),
+    gdef_ok t -> lenN b < 4294967296 -> M_gdef_encode t = Ok b ->
+    M_gdef_read (b ++ post) = Ok (gdef_norm t).
+Proof. exact gdef_roundtrip_aux. Qed.
+Print Assumptions gdef_roundtrip.
+
+Theorem gdef_read_total : forall (data : list N), M_gdef_read data <> Panic.
+Proof. exact gdef_read_total_aux. Qed.
+Print Assumptions gdef_read_total.
